@@ -903,6 +903,36 @@ func (e *Env) sockDo(cl *http.Client, path string, h http.Header, body []byte) *
 	return e.sockDoBody(cl, path, h, bytes.NewReader(body), sockTimeout)
 }
 
+// sameBody compares two response bodies as messages (the encoders are not
+// byte-deterministic): google.rpc.Status for error statuses, the reply type
+// otherwise; bytes when they do not decode.
+func sameBody(a, b *Obs) bool {
+	dec := func(o *Obs) proto.Message {
+		var m proto.Message = vschema.NewMsg(chunkDesc())
+		if o.HTTP >= 400 {
+			m = &spb.Status{}
+		}
+		var err error
+		switch strings.TrimSpace(strings.SplitN(o.Hdr.Get("Content-Type"), ";", 2)[0]) {
+		case "application/json":
+			err = protojson.Unmarshal(o.Body, m)
+		case "application/protobuf", "application/octet-stream":
+			err = proto.Unmarshal(o.Body, m)
+		default:
+			return nil
+		}
+		if err != nil {
+			return nil
+		}
+		return m
+	}
+	ma, mb := dec(a), dec(b)
+	if ma == nil || mb == nil {
+		return bytes.Equal(a.Body, b.Body)
+	}
+	return proto.Equal(ma, mb)
+}
+
 // bodyFor encodes the request message for a registered media type (nil for
 // any other type).
 func bodyFor(ct, id string) []byte {
@@ -994,7 +1024,7 @@ func (e *Env) doHTTPShape(c *Case, id string, sock bool) *Obs {
 		if pre.Panic != nil {
 			o.Panics = append(o.Panics, pre.Panic)
 		}
-		if oref.HTTP != o.HTTP || oref.Hdr.Get("Content-Type") != o.Hdr.Get("Content-Type") || !bytes.Equal(oref.Body, o.Body) {
+		if oref.HTTP != o.HTTP || oref.Hdr.Get("Content-Type") != o.Hdr.Get("Content-Type") || !sameBody(oref, o) {
 			o.SeqDiff = fmt.Sprintf("alone: HTTP %d, Content-Type %q, %d body bytes %q; after a %q request with the same Accept: HTTP %d, Content-Type %q, %d body bytes %q",
 				oref.HTTP, oref.Hdr.Get("Content-Type"), len(oref.Body), clip(string(oref.Body), 60), c.PreCT, o.HTTP, o.Hdr.Get("Content-Type"), len(o.Body), clip(string(o.Body), 60))
 		}
